@@ -65,7 +65,7 @@ def gen(ctx, i):
         mismatch = r < 0.06
         if mismatch:
             newnames = newnames + ["extra"] if ctx.rng.random() < 0.5 or len(newnames) == 1 else newnames[:-1]
-        c.explicit = (newnames, ctx.rng.choice(["mytree", "t", "analysis_tree"]), mismatch)
+        c.explicit = (newnames, ctx.rng.choice(["mytree", "t", "analysis_tree", "trees/nominal", "a b", "T-1.x", "/t"]), mismatch)
         # AsROOTTTree understands a sequence of tuples or of single items (README), not of dicts
         if c.query["f"]["k"] in ("dict", "list"):
             c.query = {**c.query, "f": {"k": "tuple", "es": c.query["f"]["es"]}}
